@@ -163,6 +163,18 @@ fn text_cps(s: &str) -> String {
 
 /// `Y <events> | <path: i.j.k or -> | <replacement events>`
 pub fn run_y(args: &[&str]) -> String {
+    // optional first argument `m<hex>`: mask applied to every 32-bit child hash (forces collisions)
+    let (mask, args) = match args.first() {
+        Some(m) if m.starts_with('m') => (u32::from_str_radix(&m[1..], 16).unwrap_or(u32::MAX), &args[1..]),
+        _ => (u32::MAX, args),
+    };
+    cstree::verif::set_hash_mask(mask);
+    let out = run_y_inner(args);
+    cstree::verif::set_hash_mask(u32::MAX);
+    out
+}
+
+fn run_y_inner(args: &[&str]) -> String {
     let parts = split(args, "|");
     let ev = parse_ops(parts[0].iter().copied());
     let path: Vec<usize> = parts[1].first().filter(|p| **p != "-").map(|p| p.split('.').map(|x| x.parse().unwrap()).collect()).unwrap_or_default();
